@@ -292,9 +292,13 @@ def run_world_once(trace: dict, schedule_seed: int, schedule, build=None):
 
 
 def natural_world_failure(trace: dict, sim, outs) -> bool:
+    from .. import depmon
+
     for r in sim.ranks:
         if r.exc is not None:
             msg = str(r.exc)
+            if isinstance(r.exc, ValueError) and "nan or inf values in" in msg and depmon.count() > sim.dep_before:
+                return True  # torch.linalg.eigh returned a non-finite decomposition of a finite matrix (simv/depmon.py)
             if isinstance(r.exc, ValueError) and (
                 "factor matrix" in msg or "exceeded the allowed tolerance" in msg or "eigenvectors" in msg
             ):
